@@ -37,9 +37,15 @@ _REPL_MATH = {}
 
 def tables():
     if not _T:
-        from pylatexenc.latexencode import get_builtin_uni2latex_dict, _uni2latexmap_xml
-        _T['defaults'] = dict(get_builtin_uni2latex_dict())
-        _T['unicode-xml'] = dict(_uni2latexmap_xml.uni2latex)
+        # through the public function: the union of the dictionary rules of each built-in set
+        from pylatexenc.latexencode import get_builtin_conversion_rules, RULE_DICT
+        for name in ('defaults', 'unicode-xml'):
+            t = {}
+            for rule in get_builtin_conversion_rules(name):
+                if rule.rule_type == RULE_DICT:
+                    for k, v in rule.rule.items():
+                        t.setdefault(k, v)
+            _T[name] = t
     return _T
 
 
@@ -110,6 +116,9 @@ def check(s, cfg, res, case):
     nfc = unicodedata.normalize('NFC', s)
     unknown = [c for c in nfc if ord(c) not in table
                and not (32 <= ord(c) <= 127 or c in '\n\r\t')]
+    # where the statement is silent the error / no-error verdict is not compared: DEL (is 127
+    # "ASCII pass-through"?) and inputs that NFC normalisation changes
+    undecided = (nfc != s) or any(ord(c) == 127 and ord(c) not in table for c in nfc)
     if unknown and not warn:
         # the same case with unknown_char_warning left at its default (the warning path runs
         # before the policy is applied; it must not change the outcome)
@@ -124,7 +133,11 @@ def check(s, cfg, res, case):
         res.fail(exc_key(e), exc_detail(e), case)
         return
     if policy == 'fail':
-        if raised != bool(unknown):
+        if undecided:
+            res.label('fail-policy:verdict-not-compared')
+            if raised:
+                return
+        elif raised != bool(unknown):
             res.fail('c13:fail-policy:%s' % ('missing-error' if unknown else 'spurious-error'),
                      'input %r: characters without rule %r, ValueError raised: %r'
                      % (s, unknown, raised), case)
@@ -184,7 +197,9 @@ def check(s, cfg, res, case):
     if 'environment' in kinds:
         res.fail('c13:environment-opened', 'input %r -> %r contains an environment' % (s, out), case)
         return
-    want_math = sum(repl_math_count(setname, ord(c)) for c in nfc if ord(c) in table)
+    # math nodes that the encodings of the characters bring along (a table entry or the output of
+    # the unknown-character policy may contain $...$); the input's own $ contributes none
+    want_math = sum(single_math_count(c, cfg) for c in nfc if c != '$')
     got_math = kinds.count('math')
     if got_math != want_math:
         res.fail('c13:math-shift-opened', 'input %r -> %r has %d math node(s), the replacement '
@@ -224,6 +239,24 @@ def single_profile(c, cfg):
     return _SINGLE_OUT[k]
 
 
+_SINGLE_MATH = {}
+
+
+def single_math_count(c, cfg):
+    k = (c, cfg)
+    if k not in _SINGLE_MATH:
+        n = 0
+        try:
+            o = encoder(cfg).unicode_to_latex(c)
+            if '$' in o or '\\(' in o or '\\[' in o:
+                w, nl = px.parse(o, None, tolerant=False, monitored=False)
+                n = sum(1 for x in walk(nl) if kind(x) == 'math')
+        except Exception:
+            n = 0
+        _SINGLE_MATH[k] = n
+    return _SINGLE_MATH[k]
+
+
 def check_lexical(s, nfc, out, cfg, res, case):
     """the input's own active characters are neutralised: the output holds no bare active
     character, comment or line-break macro beyond what the encodings of its *non-active*
@@ -238,8 +271,10 @@ def check_lexical(s, nfc, out, cfg, res, case):
             return
         for n, v in prof[0].items():
             want_names[n] = want_names.get(n, 0) + v
-        if c not in ACTIVE_ASCII:
-            for x, v in prof[1].items():
+        for x, v in prof[1].items():
+            # an active character's own replacement may use *other* active characters
+            # (e.g. ~ -> $\sim$); only the character itself must be gone
+            if c not in ACTIVE_ASCII or (x != c and not (c == '\\' and x == '\\\\')):
                 allowed[x] = allowed.get(x, 0) + v
     for x, v in sorted(bare.items()):
         if v > allowed.get(x, 0):
